@@ -116,7 +116,10 @@ impl<'a, 'b> G<'a, 'b> {
                 // a call behind a value the rules cannot know (a global): it runs or not at run time
                 self.st.side_effect_args += 1;
                 let l = self.lit();
-                match self.t.choose(7) {
+                match self.t.choose(10) {
+                    7 => format!("if UNSET_FLAG then {} else probe1(2)", l),
+                    8 => format!("if UNSET_FLAG then 1 elseif UNSET_FLAG then 2 else probe1({})", l),
+                    9 => format!("if OTHER_FLAG then probe1({}) else 2", l),
                     0 => format!("OTHER_FLAG and probe1({})", l),
                     1 => format!("UNSET_FLAG or probe1({})", l),
                     2 => format!("UNSET_FLAG and probe1({})", l),
